@@ -274,7 +274,8 @@ func casesC02(g *Gen) []*Case {
 		}
 	}
 	// text that directly follows @else / @end is unaffected, whatever letter it starts with
-	for _, t := range []string{"i", "ix", "invalid", "I", "If", "in", "e", "end", "(x)", "f", "if ", "1"} {
+	for _, t := range []string{"i", "ix", "invalid", "I", "If", "in", "e", "end", "(x)", "f", "if ", "1",
+		" if you have not paid yet, please do.", " if (n) is not one", " if", "  if (x)", "\nif (x) y", " IF x", "If (x)", " elseif", " else", "s if", ": if (a) b", " i f", "-if(x)"} {
 		if strings.HasPrefix(t, "if") {
 			continue // "@else" + "if…" is the keyword @elseif
 		}
